@@ -27,6 +27,9 @@ type c04Case struct {
 	Out    []string `json:"output_names"` // name under which each group column is selected (alias or the column itself)
 	// KeyForm of the first grouping column: "" | "nested" (GROUP BY d.k1 over rows carrying d:{k1:..}) | "backquoted"
 	KeyForm string `json:"first_key_form,omitempty"`
+	// FnAbs: GROUP BY abs(k1), `k2` - a numeric function key that cannot be evaluated for NULL rows, followed by a
+	// key that has to be resolved as well (back-quoted): 1 and -1 are one group, NULL rows keep their own k2 groups
+	FnAbs bool `json:"abs_function_key,omitempty"`
 }
 
 func genC04(ref core.CaseRef, r *rand.Rand) *c04Case {
@@ -80,7 +83,13 @@ func genC04(ref core.CaseRef, r *rand.Rand) *c04Case {
 		all = append(all, "a|b", "b|c")
 	}
 	c.Shape = keyShape(all)
-	if ncols >= 1 && c.Types[0] == "string" && !hostile && r.Intn(3) == 0 {
+	if ncols >= 2 && ref.Index%9 == 5 {
+		c.FnAbs = true
+		c.Types[0], c.Types[1] = "int", "string"
+		doms[0] = []any{1, -1, 2, -2, nil}
+		doms[1] = []any{"AB", "CD", "ef"}
+	}
+	if !c.FnAbs && ncols >= 1 && c.Types[0] == "string" && !hostile && r.Intn(3) == 0 {
 		c.FnKey = true
 		doms[0] = []any{"aa", "Aa", "bb", "BB", "c"}
 	}
@@ -113,7 +122,11 @@ func genC04(ref core.CaseRef, r *rand.Rand) *c04Case {
 	sel := append([]string{}, c.Cols...)
 	gb := append([]string{}, c.Cols...)
 	c.Out = append([]string{}, c.Cols...)
-	if c.FnKey {
+	if c.FnAbs {
+		sel[0], gb[0] = "abs(k1) AS k1", "abs(k1)"
+		sel[1], gb[1] = "`k2` AS g_k2", "`k2`"
+		c.Out[1] = "g_k2"
+	} else if c.FnKey {
 		sel[0] = "upper(k1) AS k1"
 		gb[0] = "upper(k1)"
 		if r.Intn(3) == 0 {
@@ -167,6 +180,19 @@ func runC04(ctx *core.Ctx) {
 }
 
 func (c *c04Case) keyOfRow(row Row) string {
+	if c.FnAbs {
+		cp := Row{}
+		for k, v := range row {
+			cp[k] = v
+		}
+		if f, ok := toF(row["k1"]); ok && row["k1"] != nil {
+			if f < 0 {
+				f = -f
+			}
+			cp["k1"] = f
+		}
+		return tuple(cp, c.Cols)
+	}
 	if !c.FnKey {
 		return tuple(row, c.Cols)
 	}
